@@ -35,6 +35,14 @@ Proof. vm_compute. reflexivity. Qed.
 Lemma gen_dispatch_ok : dispatch_ok func_facts base_facts engine_facts = true.
 Proof. vm_compute. reflexivity. Qed.
 
+(** the documented-sanitising table: only BigQuery rewrites generated column names *)
+Definition documented_sanitising : list engine := [Bigquery].
+Lemma gen_sanitising_ok : sanitising_ok base_facts engine_facts documented_sanitising = true.
+Proof. vm_compute. reflexivity. Qed.
+(** Spark time patterns are read in the input dialect and written for the execution dialect *)
+Lemma gen_time_ok : time_ok time_facts = true.
+Proof. vm_compute. reflexivity. Qed.
+
 Definition nmE := nm base_facts engine_facts.
 Definition cfgE := cfg_of engine_facts core_df core_group gen_cfg.
 
@@ -71,7 +79,9 @@ Definition C12_full (W : world) : Prop :=
     (b) every statement of every action sequence is rendered into the session's execution dialect,
         df.sql(dialect=X) into X, and result names are re-normalised execution -> output;
     (c) function dispatch is total and correct on what each engine's module exports, and the `_is_<engine>`
-        flags are one-hot. *)
+        flags are one-hot;
+    (d) only the engines of the documented-sanitising table rewrite generated column names, and Spark time
+        patterns are read in the input dialect and written for the execution dialect. *)
 Definition C12_proved_fragment : Prop :=
   (forall E ops ics, exists cE cD, cfgE E = Some cE /\ cfgE Duckdb = Some cD /\
       erase_names (compile cE (view_ops base_facts engine_facts E ops) (init_df (view_cols base_facts engine_facts E ics)))
@@ -92,7 +102,11 @@ Definition C12_proved_fragment : Prop :=
   /\ (forall E, In E property_engines -> forall n, In n (exports func_facts E) ->
         (forall fb, dispatch func_facts (default_sess base_facts engine_facts E) n fb = Found n) /\
         exists uns, sassoc n (ff_table func_facts) = Some (Some uns) /\ mem (engine_name E) uns = false)
-  /\ (forall E X, flag base_facts engine_facts E X = true <-> X = E).
+  /\ (forall E X, flag base_facts engine_facts E X = true <-> X = E)
+  /\ (forall E, existsb (engine_eqb E) documented_sanitising = false -> forall n, nmE E n = n)
+  /\ (forall s,
+        (forall k, In k time_reads -> exists d, sassoc k time_facts = Some d /\ deval s None d = Some (s_in s)) /\
+        (forall k, In k time_writes -> exists d, sassoc k time_facts = Some d /\ deval s None d = Some (s_exec s))).
 
 Theorem C12_partial : C12_proved_fragment.
 Proof.
@@ -102,7 +116,9 @@ Proof.
   split; [exact (df_sql_in_requested_dialect plumbing_facts gen_dfsql_ok)|].
   split; [exact (result_names_renormalised plumbing_facts gen_names_ok)|].
   split; [exact (dispatch_total_on_exports func_facts base_facts engine_facts gen_dispatch_ok)|].
-  exact (flags_one_hot_spec base_facts engine_facts gen_flags_one_hot).
+  split; [exact (flags_one_hot_spec base_facts engine_facts gen_flags_one_hot)|].
+  split; [exact (sanitising_spec base_facts engine_facts documented_sanitising gen_sanitising_ok)|].
+  exact (time_formats_in_right_dialect time_facts gen_time_ok).
 Qed.
 Print Assumptions C12_partial.
 
